@@ -10,12 +10,12 @@ import (
 	"golang.org/x/tools/go/ssa"
 )
 
-func (x *Exec) doCall(st *State, in *ssa.Call) {
+func (x *Exec) doCall(st *State, in *ssa.Call) bool {
 	pos := in.Pos()
 	cc := in.Common()
 	if cc.IsInvoke() {
 		x.doInvoke(st, in)
-		return
+		return true
 	}
 	var args []Val
 	for _, a := range cc.Args {
@@ -23,17 +23,19 @@ func (x *Exec) doCall(st *State, in *ssa.Call) {
 	}
 	switch f := cc.Value.(type) {
 	case *ssa.Builtin:
-		x.doBuiltin(st, in, f.Name(), args)
-		return
+		return x.doBuiltin(st, in, f.Name(), args)
 	case *ssa.Function:
 		name := qualName(f)
 		if name == "" {
 			name = f.String()
 		}
 		if x.nativeModel(st, in, name, args) {
-			return
+			return true
 		}
 		c := x.P.Specs.Contracts[name]
+		if c != nil && c.Transparent {
+			return x.inlineCall(st, in, f, args)
+		}
 		if c == nil {
 			if x.P.inModule(f) {
 				x.unsup(pos, "call to %s, which has no contract", name)
@@ -45,15 +47,68 @@ func (x *Exec) doCall(st *State, in *ssa.Call) {
 			x.assumeWf(st, r)
 			x.setVal(st, in, r)
 			st.allocs += externalAllocCost(name)
-			return
+			return true
 		}
 		r := x.applyContract(st, name, c, f, args, pos, in.Type())
 		x.setVal(st, in, r)
-		return
+		return true
 	case *ssa.MakeClosure:
 		x.unsup(pos, "call of a closure value")
 	}
 	x.unsup(pos, "dynamic call")
+	return false
+}
+
+// inlineCall executes the body of a transparent (private, loop-free) helper
+// in place; its Return continues the caller after the call instruction.
+func (x *Exec) inlineCall(st *State, in *ssa.Call, f *ssa.Function, args []Val) bool {
+	if len(f.Blocks) == 0 {
+		x.unsup(in.Pos(), "transparent callee %s has no body", f.Name())
+	}
+	for _, b := range f.Blocks {
+		for _, s := range b.Succs {
+			if s.Dominates(b) {
+				x.unsup(in.Pos(), "transparent callee %s contains a loop", f.Name())
+			}
+		}
+	}
+	if len(st.frames) > 8 {
+		x.unsup(in.Pos(), "inlining too deep")
+	}
+	var collected []*State
+	fr := &frame{call: in, names: st.names, fn: f, collect: &collected}
+	// name large heap terms before forking so that the branches (and their
+	// merge) mention them by name instead of copying them
+	for h, t := range st.heaps {
+		if len(t.S) > 300 {
+			st.heaps[h] = x.share(t)
+		}
+	}
+	work := st.clone()
+	work.frames = append(work.frames, fr)
+	names := map[string]Val{}
+	for i, p := range f.Params {
+		a := args[i]
+		a.Ty = p.Type()
+		work.vals[p] = a
+		names[p.Name()] = a
+	}
+	work.names = names
+	work.prev = nil
+	x.runBlock(work, f.Blocks[0])
+	if len(collected) == 0 {
+		return false // every path through the callee ended (panic): nothing to continue
+	}
+	merged := collected
+	if c := x.P.Specs.Contracts[qualName(f)]; c == nil || !c.NoMerge {
+		merged = x.mergeGroups(collected, in)
+	}
+	// continue the caller once per group; the last group continues in place
+	for _, g := range merged[:len(merged)-1] {
+		x.continueAfter(g, in)
+	}
+	*st = *merged[len(merged)-1]
+	return true
 }
 
 func externalAllocCost(name string) int {
@@ -165,6 +220,9 @@ func (x *Exec) pureApp(st *State, name string, f *ssa.Function, c *Contract, arg
 		if ht.IsZero() {
 			ht = x.heap(st, h, reads[h])
 		}
+		if x.isFrozen(h) {
+			ht = x.entryHeap(st, h, reads[h])
+		}
 		targs = append(targs, ht)
 		sorts = append(sorts, ht.Sort)
 	}
@@ -204,15 +262,7 @@ func (x *Exec) applyContract(st *State, name string, c *Contract, f *ssa.Functio
 	env := x.calleeEnv(st, c, f, args)
 	// inline definitions
 	if c.Inline {
-		if len(c.Ensures) != 1 {
-			x.unsup(pos, "inline function %s needs exactly one 'ensures result == E'", name)
-		}
-		b, ok := c.Ensures[0].E.(EBin)
-		if !ok || b.Op != "==" {
-			x.unsup(pos, "inline function %s: ensures must be 'result == E'", name)
-		}
-		v := x.tr(env, b.R)
-		v.Ty = rt
+		v := x.inlineDef(env, name, c, rt)
 		st.allocs += max(c.Allocs, 0)
 		return v
 	}
@@ -252,6 +302,66 @@ func (x *Exec) applyContract(st *State, name string, c *Contract, f *ssa.Functio
 		st.assume(x.trBool(penv, e.E))
 	}
 	return r
+}
+
+// inlineDef evaluates the defining expressions of an inline function:
+// one "ensures resultK == E" per result, in order.
+func (x *Exec) inlineDef(env *Env, name string, c *Contract, rt types.Type) Val {
+	n := 1
+	tup, isTup := rt.(*types.Tuple)
+	if isTup {
+		n = tup.Len()
+	}
+	if len(c.Ensures) != n {
+		panic(unsupported{fmt.Sprintf("inline function %s needs one 'ensures resultK == E' per result", name)})
+	}
+	var rs []Val
+	for i, e := range c.Ensures {
+		b, ok := e.E.(EBin)
+		if !ok || b.Op != "==" {
+			panic(unsupported{"inline function " + name + ": ensures must be 'result == E'"})
+		}
+		v := x.tr(env, b.R)
+		if isTup {
+			v.Ty = tup.At(i).Type()
+		} else {
+			v.Ty = rt
+		}
+		if v.T.Sort == "Nil" {
+			v.T = x.nilOf(env, v.Ty)
+		}
+		v.T = x.share(v.T)
+		rs = append(rs, v)
+	}
+	if isTup {
+		return Val{Tup: rs, Ty: rt}
+	}
+	return rs[0]
+}
+
+func (x *Exec) isFrozen(h string) bool {
+	if x.c == nil {
+		return false
+	}
+	for _, p := range x.c.Frozen {
+		if strings.HasPrefix(h, p) {
+			return true
+		}
+	}
+	return false
+}
+
+func (x *Exec) entryHeap(st *State, h string, elem Sort) Term {
+	x.heap(st, h, elem)
+	if st.entry != nil {
+		if t, ok := st.entry.heaps[h]; ok {
+			return t
+		}
+	}
+	hs := heapSort(h, elem)
+	n := "H0!" + h
+	x.declare(n, hs)
+	return Term{sym(n), hs}
 }
 
 func shortName(n string) string {
@@ -479,7 +589,15 @@ func elemSortOfHeapName(h string) Sort {
 
 // ---------- builtins ----------
 
-func (x *Exec) doBuiltin(st *State, in *ssa.Call, name string, args []Val) {
+func (x *Exec) doBuiltin(st *State, in *ssa.Call, name string, args []Val) bool {
+	if name == "append" {
+		return x.doAppend(st, in, args)
+	}
+	x.doBuiltin1(st, in, name, args)
+	return true
+}
+
+func (x *Exec) doBuiltin1(st *State, in *ssa.Call, name string, args []Val) {
 	pos := in.Pos()
 	cc := in.Common()
 	switch name {
@@ -506,8 +624,6 @@ func (x *Exec) doBuiltin(st *State, in *ssa.Call, name string, args []Val) {
 			}
 		}
 		x.setVal(st, in, Val{T: r, Ty: in.Type()})
-	case "append":
-		x.doAppend(st, in, args)
 	case "copy":
 		x.doCopy(st, in, args)
 	default:
@@ -517,7 +633,7 @@ func (x *Exec) doBuiltin(st *State, in *ssa.Call, name string, args []Val) {
 
 // doAppend models append(s, t...) with aliasing: in place when capacity
 // suffices (forks the path), otherwise a fresh backing array.
-func (x *Exec) doAppend(st *State, in *ssa.Call, args []Val) {
+func (x *Exec) doAppend(st *State, in *ssa.Call, args []Val) bool {
 	pos := in.Pos()
 	s, t := args[0].T, args[1].T
 	sl := in.Common().Args[0].Type().Underlying().(*types.Slice)
@@ -528,7 +644,7 @@ func (x *Exec) doAppend(st *State, in *ssa.Call, args []Val) {
 	}
 	if isStruct(et) {
 		x.appendStructs(st, in, args)
-		return
+		return true
 	}
 	es := x.P.sortOf(et)
 	hn := "E!" + string(es)
@@ -538,6 +654,7 @@ func (x *Exec) doAppend(st *State, in *ssa.Call, args []Val) {
 		return x.readLoc(st, &Loc{Kind: "elem", Heap: hn, Addr: SlArr(sv), Idx: Add(SlOff(sv), j), Sort: es})
 	}
 	fits := Le(newLen, SlCap(s))
+	var inPlace *State
 	// in-place branch
 	if fits.S != "false" {
 		s1 := st
@@ -558,12 +675,12 @@ func (x *Exec) doAppend(st *State, in *ssa.Call, args []Val) {
 		r1 := MkSlice(SlArr(s), SlOff(s), newLen, SlCap(s))
 		if s2 == nil {
 			x.setVal(s1, in, Val{T: r1, Ty: in.Type()})
-			return
+			return true
 		}
-		// continue the in-place path to the end of the function on a clone,
-		// the fresh-array path on st itself
+		// the in-place outcome is kept aside and merged with the fresh-array
+		// outcome right after this instruction
 		x.setVal(s1, in, Val{T: r1, Ty: in.Type()})
-		x.continueAfter(s1, in)
+		inPlace = s1.clone()
 		*st = *s2
 		st.assume(Not(fits))
 	}
@@ -596,6 +713,11 @@ func (x *Exec) doAppend(st *State, in *ssa.Call, args []Val) {
 		}
 	}
 	x.setVal(st, in, Val{T: r, Ty: in.Type()})
+	if inPlace != nil {
+		fresh := st.clone()
+		*st = *x.mergeStates([]*State{inPlace, fresh}, in)
+	}
+	return true
 }
 
 // continueAfter runs the remainder of the block after instruction in on st.
@@ -639,7 +761,8 @@ func (x *Exec) doInvoke(st *State, in *ssa.Call) {
 	case "http.ResponseWriter.Header":
 		f := x.declareFun("whdr", []Sort{SIface}, SInt)
 		h := App(f, SInt, recv.T)
-		st.assume(Ne(h, Int(0)))
+		x.declare("brk!", SInt)
+		st.assume(And(Ne(h, Int(0)), Lt(h, Term{"brk!", SInt})))
 		st.events = append(st.events, Event{"Header", []Val{recv}})
 		x.setVal(st, in, Val{T: h, Ty: in.Type()})
 	case "http.ResponseWriter.WriteHeader":
@@ -647,6 +770,9 @@ func (x *Exec) doInvoke(st *State, in *ssa.Call) {
 		x.setVal(st, in, Val{Ty: in.Type()})
 	case "http.Handler.ServeHTTP":
 		st.events = append(st.events, Event{"ServeHTTP", append([]Val{recv}, args...)})
+		if st.atServe == nil {
+			st.atServe = copyHeaps(st.heaps)
+		}
 		// the wrapped handler may do anything to the response headers and may
 		// mutate in place every slice it can reach
 		for _, hn := range []string{"MP!", "MV!", "E!Str"} {
@@ -656,6 +782,14 @@ func (x *Exec) doInvoke(st *State, in *ssa.Call) {
 		}
 		x.setVal(st, in, Val{Ty: in.Type()})
 	default:
+		if it == "http.ResponseWriter" {
+			// any other method of the writer (Write, Flush, ...) is recorded as an event
+			st.events = append(st.events, Event{m, append([]Val{recv}, args...)})
+			r := x.freshVal("wret", in.Type())
+			x.assumeWf(st, r)
+			x.setVal(st, in, r)
+			return
+		}
 		x.unsup(in.Pos(), "interface method call %s.%s", it, m)
 	}
 }
